@@ -37,6 +37,32 @@ func init() {
 		Runs:       map[string]int{"quick": c13EnumCount, "thorough": c13EnumCount},
 		Exec:       execC13})
 	h.Register(&h.World{Prop: "C13", Name: "mutations", JournalPlans: true, Gen: genC13Mut, Exec: execC13})
+	// property facts ("!name") attached to the canary rule, the canary fact and a
+	// dangling id, with every wrong-typed value: the engine reads some
+	// properties back itself (a rule's `disabled`) while serving later requests
+	h.Register(&h.World{Prop: "C13", Name: "props", JournalPlans: true, Gen: genC13Props,
+		Enumerated: func(string) int { return c13PropCount },
+		Runs:       map[string]int{"quick": c13PropCount, "thorough": c13PropCount},
+		Exec:       execC13})
+}
+
+var c13PropTargets = []string{"canaryrule", "canaryfact", "nosuchid"}
+var c13PropNames = []string{"disabled", "enabled", "author", "expires"}
+var c13PropCount = len(c13PropTargets) * len(c13PropNames) * len(c13Values()) * 2
+
+func genC13Props(r *h.Rng, tier string, idx int) *h.Plan {
+	k := idx % c13PropCount
+	state := []string{"indexed", "linear"}[k%2]
+	k /= 2
+	vals := c13Values()
+	v := vals[k%len(vals)]
+	k /= len(vals)
+	name := c13PropNames[k%len(c13PropNames)]
+	k /= len(c13PropNames)
+	target := c13PropTargets[k%len(c13PropTargets)]
+	p := &h.Plan{Cfg: map[string]interface{}{"state": state, "cell": "propfact/" + target + "/" + name + "/" + h.Canon(v)}}
+	p.Ops = append(p.Ops, h.Op{K: "propfact", Id: target, S: name, J: map[string]interface{}{"v": v}})
+	return p
 }
 
 func c13Base(entry string) map[string]interface{} {
@@ -186,6 +212,7 @@ func execC13(t *testing.T, plan *h.Plan, trace bool) *h.Result {
 		if _, err := loc.AddRule(ctx(), "canaryrule", core.Map{"when": map[string]interface{}{"pattern": map[string]interface{}{"canarypulse": "?x"}}, "action": map[string]interface{}{"code": "'canary-fired'"}}); err != nil {
 			panic(err)
 		}
+		canaryDisabled := false
 		canary := func(after string) {
 			guard("canary:AddFact", func() {
 				if _, err := loc.AddFact(ctx(), "canary2", core.Map{"canary": "second"}); err != nil {
@@ -225,6 +252,9 @@ func execC13(t *testing.T, plan *h.Plan, trace bool) *h.Result {
 					if v == "canary-fired" {
 						n++
 					}
+				}
+				if n == 0 && canaryDisabled {
+					return // the input was a well-formed "disable the canary rule": it took effect
 				}
 				if n != 1 {
 					fail("poisoned", "canary-event", "after %s, the canary rule fired %d times for its event (values %v)", after, n, fr.Values)
@@ -266,6 +296,8 @@ func execC13(t *testing.T, plan *h.Plan, trace bool) *h.Result {
 					}
 				case "query":
 					_, err = loc.Query(ctx(), h.Canon(m))
+				case "propfact":
+					_, err = loc.AddFact(ctx(), "", core.Map{"id": op.Id, "!" + op.S: m["v"]})
 				}
 			})
 			if trace {
@@ -280,11 +312,16 @@ func execC13(t *testing.T, plan *h.Plan, trace bool) *h.Result {
 			} else {
 				res.Count("inputs_accepted", 1)
 			}
+			canaryDisabled = op.K == "propfact" && op.Id == "canaryrule" && op.S == "disabled" && m["v"] == true && err == nil
 			canary(desc)
+			canaryDisabled = false
 			// whatever the hostile input left behind is removed again (and that must work too)
 			guard("cleanup", func() {
 				loc.RemFact(ctx(), "hostile")
 				loc.RemRule(ctx(), "hostilerule")
+				if op.K == "propfact" {
+					loc.RemFact(ctx(), h.PropId(op.Id, op.S))
+				}
 			})
 		}
 		back.Close()
